@@ -439,24 +439,27 @@ def tpToks : Nat → Str → Str → List Str → List Str
       else if c == '(' || c == ')' || c == ',' then tpToks n cs [] ([c] :: flushWord w acc)
       else tpToks n cs [] (flushWord w acc)
 
-/-- `maskedTokenInTablePosition`: armed flags by depth (head = current), after-FROM/JOIN flag; returns
-the FIRST flagged placeholder in table position -/
-def tablePosFirst (flag : Str → Bool) : List Str → List Bool → Bool → Option Str
-  | [], _, _ => none
-  | tok :: r, armed, after =>
-    if tok == ['('] then tablePosFirst flag r (false :: armed) false
+/-- `maskedTokenInTablePosition`: armed flags by depth (head = current), after-FROM/JOIN flag, previous token
+(lower-cased; "" at the start); returns the FIRST flagged placeholder in table position -/
+def tablePosGo (flag : Str → Bool) : List Str → List Bool → Bool → Str → Option Str
+  | [], _, _, _ => none
+  | tok :: r, armed, after, prev =>
+    let lt := lowerAscii tok
+    if tok == ['('] then tablePosGo flag r (false :: armed) false lt
     else if tok == [')'] then
       (match armed with
-       | _ :: b :: bs => tablePosFirst flag r (b :: bs) false
-       | a => tablePosFirst flag r a false)
-    else if tok == [','] then tablePosFirst flag r armed (armed.headD false)
+       | _ :: b :: bs => tablePosGo flag r (b :: bs) false lt
+       | a => tablePosGo flag r a false lt)
+    else if tok == [','] then tablePosGo flag r armed (armed.headD false) lt
     else if "__STR_".toList.isPrefixOf tok || "__IDENT_".toList.isPrefixOf tok then
-      if after && flag tok then some tok else tablePosFirst flag r armed false
+      if after && flag tok then some tok else tablePosGo flag r armed false lt
     else
-      let l := lowerAscii tok
-      if l == "from".toList || l == "join".toList then tablePosFirst flag r (true :: armed.tail) true
-      else if terminators.contains l then tablePosFirst flag r (false :: armed.tail) false
-      else tablePosFirst flag r armed false
+      if armsLikeFrom prev lt then tablePosGo flag r (true :: armed.tail) true lt
+      else if terminators.contains lt then tablePosGo flag r (false :: armed.tail) false lt
+      else tablePosGo flag r armed false lt
+
+def tablePosFirst (flag : Str → Bool) (toks : List Str) (armed : List Bool) (after : Bool) : Option Str :=
+  tablePosGo flag toks armed after []
 
 def tablePos (flag : Str → Bool) (toks : List Str) (armed : List Bool) (after : Bool) : Bool :=
   (tablePosFirst flag toks armed after).isSome
